@@ -279,6 +279,18 @@ func (s *Solvers) discharge(obls []*Obligation, workers int) {
 
 func (s *Solvers) dischargeOne(o *Obligation) {
 	script := o.vc.script(o, "")
+	if o.MustFail {
+		// vacuity probes: any answer but unsat is fine; keep them cheap
+		to := 3 * time.Second
+		r, _ := s.runWith(o.Name, script, to, 1)
+		o.Backend, o.Time = r.backend, r.secs
+		if r.status == "unsat" {
+			o.Status = "vacuous"
+		} else {
+			o.Status = "discharged"
+		}
+		return
+	}
 	r, all := s.run(o.Name, script, true)
 	o.Backend = r.backend
 	o.Time = r.secs
